@@ -20,6 +20,21 @@ def okMat : Option (List (List CF)) → String
   | some m => "ok " ++ showVec m.flatten
   | none => "panic"
 
+/-- column-major data (`cols` columns of `rows` entries) as a list of rows -/
+def colsToRows (rows : Nat) (colsL : List (List CF)) : List (List CF) :=
+  (List.range rows).map fun r => colsL.map fun c => c.getD r 0
+
+/-- a list of rows, shown column by column -/
+def showCols (cols : Nat) (m : List (List CF)) : String :=
+  showVec ((List.range cols).flatMap fun c => m.map fun row => row.getD c 0)
+
+/-- `apply_unary_gate_all`: `apply_gate` on every qubit in turn -/
+def unaryAll (n : Nat) (g : G) (rows : List (List CF)) : Except (Nat × Nat) (Option (List (List CF))) :=
+  (List.range n).foldl (fun acc bit =>
+    match acc with
+    | .ok (some m) => Gate.applyAll (α := CF) n m g [bit]
+    | other => other) (.ok (some rows))
+
 def parseMask (ws : List String) : Option (List Bool) :=
   ws.mapM fun w => if w = "1" then some true else if w = "0" then some false else none
 
@@ -78,6 +93,16 @@ def handle (line : String) : String :=
         match Gate.applyAll (α := CF) n (data.map ([·])) g bits with
         | .error (a, b) => s!"err nrbits {a} {b}"
         | .ok r => okMat r
+      | "vsapplym", n :: cols :: bits =>
+        match Gate.applyAll (α := CF) n (colsToRows (2 ^ n) (unflat cols (2 ^ n) data)) g bits with
+        | .error (a, b) => s!"err nrbits {a} {b}"
+        | .ok (some m) => "ok " ++ showCols cols m
+        | .ok none => "panic"
+      | "vsunarym", [n, cols] =>
+        match unaryAll n g (colsToRows (2 ^ n) (unflat cols (2 ^ n) data)) with
+        | .error (a, b) => s!"err nrbits {a} {b}"
+        | .ok (some m) => "ok " ++ showCols cols m
+        | .ok none => "panic"
       | _, _ => "bad-op"
 
 /-! ### (B): the property evaluated on the implementation's answer -/
@@ -134,6 +159,24 @@ def specPlaced (cls : String) (g : G) (n : Nat) (bits : List Nat) (cols : Nat) (
     match parseVec out with
     | none => "fail bad-answer"
     | some out => verdict cls (maxDist out (embedApply n bits M (unflat (2 ^ n) cols data) cols).flatten)
+  | _ => if valid then s!"fail {cls}-panic valid request did not return" else "skip"
+
+/-- `apply_gate` / `apply_unary_gate_all` on a state of many columns: every column is multiplied by the embedded
+matrix (for each placement in `placements`, in order) -/
+def specMulti (cls : String) (g : G) (n cols : Nat) (placements : List (List Nat)) (data : List CF)
+    (ans : List String) : String :=
+  let M : LMat CF := Gate.matrix g
+  let valid := placements.all (fun bits => Spec.validBits n bits && bits.length == Gate.nrBits g) ∧
+    data.length = 2 ^ n * cols
+  match ans with
+  | "ok" :: out =>
+    if ¬ valid then "skip" else
+    match parseVec out with
+    | none => "fail bad-answer"
+    | some out =>
+      let expect := (unflat cols (2 ^ n) data).map fun col =>
+        placements.foldl (fun φ bits => LMat.mulVec (Spec.embed n bits M) φ) col
+      verdict cls (maxDist out expect.flatten)
   | _ => if valid then s!"fail {cls}-panic valid request did not return" else "skip"
 
 /-- expand `(count, state)` columns into one state per shot -/
@@ -203,6 +246,14 @@ def specCheck (line : String) : String :=
           if bits.length ≠ Gate.nrBits g then
             (if aw.take 2 = ["err", "nrbits"] then "ok" else "fail vsapply-arity-not-rejected")
           else specPlaced "vectorstate-apply-differs-from-embed" g n bits cols data aw
+        | "vsapplym", n :: cols :: bits =>
+          if bits.length ≠ Gate.nrBits g then
+            (if aw.take 2 = ["err", "nrbits"] then "ok" else "fail vsapply-arity-not-rejected")
+          else specMulti "vectorstate-apply-multi-differs-from-embed" g n cols [bits] data aw
+        | "vsunarym", [n, cols] =>
+          if Gate.nrBits g ≠ 1 then
+            (if aw.take 2 = ["err", "nrbits"] then "ok" else "fail vsapply-arity-not-rejected")
+          else specMulti "vectorstate-unary-all-differs-from-embed" g n cols ((List.range n).map ([·])) data aw
         | _, _ => "fail bad-request"
   | _ => "fail bad-line"
 
